@@ -890,6 +890,18 @@ class Runner
         {
             // C09: after clear() a moved-from vector is empty
             VF_REQUIRE(vs[s].v->size() == 0 && vs[s].v->empty(), "moved_from_clear", "moved-from vector not empty after clear()");
+            // ... and from then on it is an empty vector like any other (C18: "emptied by clear"): whatever capacity() it
+            // reports can be used, reserve / emplace_back / copy / compare are well defined. The byte budget behind that
+            // capacity is not known, so VaryingSize lists reserve before they emplace (as after a copy).
+            MVec& m = vs[s].m;
+            m.moved_from = false;
+            m.cap = vs[s].v->capacity();
+            m.budget = 0;
+            m.budget_known = false;
+            m.exact = false;
+            moved_from_reused = true;
+            st.label("moved_from_revived_by_clear");
+            if (prop == 9 || prop == 18) nt_flag = true;
         }
     }
 
